@@ -59,6 +59,8 @@ pub fn serve<F: Fn(&[&str]) -> String + panic::RefUnwindSafe>(f: F) {
             Ok(s) => writeln!(out, "{}", s).unwrap(),
             Err(_) => writeln!(out, "PANIC").unwrap(),
         }
+        // one flush per answer: the runner attributes a stall / a death to the first line without an answer
+        out.flush().unwrap();
     }
     out.flush().unwrap();
 }
